@@ -6,10 +6,17 @@ EXTENDS Stats
 PnLsQuick    == {-2, -1, 0, 1, 3}           \* returns {-2,-1,0,1,3}/10 with cost 10
 ValsQuick    == {-3, -1, 0, 2, 1000}        \* repeats allowed, mixed magnitude
 ValsThorough == {-3, -1, 0, 2, 7, 1000}
-\* the ratio figures: exit-time increments in seconds (equal times; one second; exactly the custom
-\* two-hour interval; more than a day; more than a year - so that scaling goes up, nowhere, down)
-GapsQuick    == {0, 7200, 40000000}
-GapsSmall    == {0, 7200}
+\* the ratio figures: steps of the exit time in seconds (equal times; exactly the custom two-hour interval;
+\* more than a year - so that scaling goes up, nowhere, down; and a NEGATIVE step: the position is delivered
+\* LATE, its exit two hours before that of the position delivered before it - possibly before the session start)
+GapsQuick    == {-7200, 0, 7200, 40000000}
+\* (the deeper model: without the zero step - equal exit times still arise, two hours back and two hours on)
+GapsThorough == {-7200, 7200, 40000000}
+GapsSmall    == {0, 7200}             \* (the small model closes one position: nothing can be late)
+\* the sheet models with late exits (figures that never read a time): one second forwards or two seconds back;
+\* a loss, a break-even position, a win
+GapsSheet    == {-2, 1}
+PnLsLate     == {-1, 0, 3}
 PnLsRatio    == {-2, -1, 0, 1}              \* two different losses, break-even, the return 1/10 = rf
 \* risk-free returns: none, one tenth (the return 1/10 exists: excess exactly zero), negative
 RFsQuick     == {<<0, 1>>, <<1, 10>>, <<-1, 10>>}
